@@ -77,6 +77,27 @@ def spec_linear_rxns(case):
     return sorted(out)
 
 
+def spec_linear_rhs(case, res, ext):
+    """derivative of every label position from the documented per-position transfers:
+    each transfer runs at enrichment(source) x flux, leaves its source at rate/pool(source compound)
+    and arrives at its product position at rate/pool(product compound)"""
+    E = {k: Fraction(v) for k, v in res["E"]}
+    E["EXT"] = Fraction(ext)
+    C = {k: Fraction(v) for k, v in res["C"]}
+    v = {k: Fraction(x) for k, x in res["v"]}
+    d = {f"{x}__{i}": Fraction(0) for x, n in case["lv"] for i in range(n)}
+    for name, m in case["maps"]:
+        s, p = padded(case, name)
+        for i in range(len(p)):
+            src, dst = s[m[i]], p[i]
+            rate = E[src] * v[name]
+            if src != "EXT":
+                d[src] -= rate / C[src.rsplit("__", 1)[0]]
+            if dst != "EXT":
+                d[dst] += rate / C[dst.rsplit("__", 1)[0]]
+    return {"ok": sorted([k, fexpr.rat_str(x)] for k, x in d.items())}
+
+
 def spec_build(case):
     lv = c05.lv_of(case)
     if any(n <= 0 for _, n in case["lv"]):
@@ -182,24 +203,39 @@ def _real_worker(case):
     for ev in case.get("evals", []):
         res = {}
         try:
-            tot = totals_of(case, ev["state"])
-            totf = {k: fexpr.to_float(v) for k, v in tot.items()}
-            fl = base.get_fluxes(totf, 0.0)
+            if "direct" in ev:
+                tot = {x: Fraction(v) for x, v in ev["direct"]["C"]}
+                totf = {k: fexpr.to_float(v) for k, v in tot.items()}
+                fl = pd.Series({r: fexpr.to_float(Fraction(v)) for r, v in ev["direct"]["v"]})
+                net = {x: Fraction(0) for x, _ in case["base"]["vars"]}
+                for r, rx in case["base"]["rxns"]:
+                    for c, coef in rx["st"]:
+                        net[c] += coef * Fraction(dict(ev["direct"]["v"])[r])
+                res["base_rhs"] = [[x, fexpr.rat_str(v)] for x, v in net.items()]
+                names = [f"{x}__{i}" for x, n in case["lv"] for i in range(n)]
+                if ev.get("uniform") is not None:
+                    E = {k: Fraction(ev["uniform"]) for k in names}
+                else:
+                    E = {k: Fraction(v) for k, v in ev["E"]}
+            else:
+                tot = totals_of(case, ev["state"])
+                totf = {k: fexpr.to_float(v) for k, v in tot.items()}
+                fl = base.get_fluxes(totf, 0.0)
+                res["base_rhs"] = [[x, num(v)] for x, v in base.get_right_hand_side(totf, 0.0).items()]
+                state = dict((k, Fraction(v)) for k, v in ev["state"])
+                if ev.get("uniform") is not None:
+                    E = {k: Fraction(ev["uniform"]) for k in marginals_of(case, state)}
+                else:
+                    E = {k: v / tot[k.split("__")[0]] for k, v in marginals_of(case, state).items()}
             res["v"] = [[r, num(fl[r])] for r, _ in case["base"]["rxns"]]
             res["C"] = [[x, num(totf[x])] for x, _ in case["base"]["vars"]]
-            res["base_rhs"] = [[x, num(v)] for x, v in base.get_right_hand_side(totf, 0.0).items()]
-            state = dict((k, Fraction(v)) for k, v in ev["state"])
-            if ev.get("uniform") is not None:
-                E = {k: Fraction(ev["uniform"]) for k in marginals_of(case, state)}
-            else:
-                E = {k: v / tot[k.split("__")[0]] for k, v in marginals_of(case, state).items()}
             res["E"] = [[k, num(fexpr.to_float(v))] for k, v in sorted(E.items())]
             ext = fexpr.to_float(Fraction(ev.get("ext", "1")))
             lin2 = lmap.build_model(
                 concs=pd.Series(totf), fluxes=pd.Series({r: float(fl[r]) for r in fl.index}), external_label=ext)
             r = lin2.get_right_hand_side({k: fexpr.to_float(v) for k, v in E.items()}, 0.0)
             res["lin"] = {"ok": sorted([k, num(v)] for k, v in r.items())}
-            if ev.get("uniform") is None:
+            if ev.get("uniform") is None and "direct" not in ev:
                 if iso is None:
                     iso = imap.build_model()
                 ir = iso.get_right_hand_side({k: fexpr.to_float(v) for k, v in state.items()}, 0.0)
@@ -289,6 +325,16 @@ def judge_case(ctx, case, R, M):
             ctx.judge(one, res["lin"], res["lin"], Mr, what="linear RHS real vs model")
             continue
         steady = all(v == "0" for _, v in res["base_rhs"])
+        if "direct" in ev and "ok" not in res["lin"]:
+            ctx.violation(one, res, "evaluation of the real linear model failed")
+            continue
+        if "direct" in ev:
+            ctx.hist["eval:direct"] = ctx.hist.get("eval:direct", 0) + 1
+            ctx.judge(one, res["lin"], spec_linear_rhs(case, res, ev.get("ext", "1")), Mr,
+                      finding=F_DIRECTION if noninv else None,
+                      what="linear RHS vs the documented per-position transfers at the given pools and fluxes")
+            if ev.get("uniform") is None:
+                continue
         tag = ("uniform" if ev.get("uniform") is not None else "marginal") + ("@steady" if steady else "")
         ctx.hist["eval:" + tag] = ctx.hist.get("eval:" + tag, 0) + 1
         if ev.get("uniform") is not None:
@@ -297,6 +343,8 @@ def judge_case(ctx, case, R, M):
                 ctx.judge(one, res["lin"], zero, Mr, what="uniform enrichment equal to the external pool is stationary")
             else:
                 ctx.judge(one, res["lin"], res["lin"], Mr, what="linear RHS real vs model")
+        elif "iso" not in res:
+            ctx.violation(one, res, "evaluation of the real models failed")
         else:
             ctx.judge(one, res["lin"], res["iso"], Mr, finding=F_DIRECTION if noninv else None,
                       what="linear RHS vs d/dt of positional enrichment in the isotopomer model"
@@ -308,8 +356,19 @@ def judge_case(ctx, case, R, M):
 POW2 = (1, 2, 4, 8)
 
 
+def scaled(v, e):
+    return fexpr.rat_str(Fraction(v) * Fraction(2) ** e)
+
+
 def gen_iso_state(rng, case):
-    """integer isotopomer amounts with every labelled pool a power of two"""
+    """isotopomer amounts = integers x 2^pexp (pexp: the case's pool scale, default 0) with every
+    labelled pool a power of two"""
+    st = _gen_iso_state(rng, case)
+    e = case.get("pexp", 0)
+    return [[n, scaled(v, e)] for n, v in st] if e else st
+
+
+def _gen_iso_state(rng, case):
     lv = c05.lv_of(case)
     st = []
     for x, _ in case["base"]["vars"]:
@@ -376,24 +435,60 @@ def steady_ks(case, st):
                     for c in subs:
                         d *= tot[c]
                     ks[name] = Fraction(f, 1) / d
-                    if not fexpr.is_dyadic_small(ks[name], 30):
+                    if not fexpr.is_dyadic_small(ks[name], 200):
                         return None
                 return ks
     return None
 
 
+FLUX_EXP = (0, 0, 0, 10, 20, -10, -27, -30, -40)  # 2^-27 ~ 7e-9, 2^-40 ~ 1e-12, 2^20 ~ 1e6
+POOL_EXP = (0, 0, 0, 10, -10, -20)
+
+
+def direct_eval(rng, case, *, uniform=None, equal_flux=False):
+    """an evaluation of the linear model alone at freely chosen pools / fluxes / enrichments:
+    pools 2^(p+-2), fluxes (1|3|5) x 2^(s-w) with w spread over up to 35 binary orders in one
+    network, enrichments k/8 -- every product and sum below is exact in a double"""
+    s_, p_ = rng.choice(FLUX_EXP), rng.choice(POOL_EXP)
+    spread = rng.choice([0, 0, 8, 27, 35])
+    f0 = scaled(rng.choice([1, 3, 5]), s_)
+    v = [[r, f0 if equal_flux else scaled(rng.choice([1, 3, 5]), s_ - rng.randint(0, spread))] for r, _ in case["base"]["rxns"]]
+    C = [[x, scaled(1, p_ + rng.randint(-2, 2))] for x, _ in case["base"]["vars"]]
+    ev = {"direct": {"C": C, "v": v}, "ext": rng.choice(["1", "1", "1/2", "0"])}
+    if uniform is not None:
+        ev["uniform"] = ev["ext"] = uniform
+    else:
+        ev["E"] = [[f"{x}__{i}", fexpr.rat_str(Fraction(rng.randint(0, 8), 8))] for x, n in case["lv"] for i in range(n)]
+    return ev
+
+
 def with_evals(rng, case, n_states=2, try_steady=True):
-    evals = []
-    for _ in range(n_states):
-        evals.append({"state": gen_iso_state(rng, case), "ext": "1"})
+    """pools and fluxes range over many orders of magnitude by exact dyadic scalings: at a constructed
+    steady state every flux is (small integer) x 2^fexp whatever the pools are; off steady state the pool
+    scale is kept within 2^+-6 so that rates of different order still add exactly"""
+    if case.get("no_iso"):
+        case["evals"] = [direct_eval(rng, case), direct_eval(rng, case, uniform=rng.choice(["1", "1/2", "1/4"]), equal_flux=True)]
+        return case
+    if not n_states:
+        case["evals"] = []
+        return case
+    fe = rng.choice(FLUX_EXP)
+    evals = None
     if try_steady:
+        case["pexp"] = rng.choice(POOL_EXP)
         st = gen_iso_state(rng, case)
         ks = steady_ks(case, st)
         if ks is not None:
-            case = dict(case, base=dict(case["base"], pars=[[f"k_{n}", fexpr.rat_str(k)] for n, k in ks.items()]))
+            case = dict(case, fexp=fe, base=dict(case["base"], pars=[[f"k_{n}", scaled(k, fe)] for n, k in ks.items()]))
             evals = [{"state": st, "ext": "1"}, {"state": gen_iso_state_same_pools(rng, case, st), "ext": "1"},
                      {"state": st, "ext": rng.choice(["1", "1/2", "1/4", "0"]), "uniform": None}]
             evals[2]["uniform"] = evals[2]["ext"]
+    if evals is None:
+        case["pexp"] = rng.choice((0, 0, 2, -3, -6))
+        case["fexp"] = fe
+        case["base"] = dict(case["base"], pars=[[k, scaled(v, fe)] for k, v in case["base"]["pars"]])
+        evals = [{"state": gen_iso_state(rng, case), "ext": "1"} for _ in range(n_states)]
+    evals.append(direct_eval(rng, case))
     case["evals"] = evals
     return case
 
@@ -402,14 +497,15 @@ def gen_iso_state_same_pools(rng, case, st):
     """another isotopomer distribution with the same pool sizes"""
     lv = c05.lv_of(case)
     tot = totals_of(case, st)
+    e = case.get("pexp", 0)
     out = []
     for x, _ in case["base"]["vars"]:
         names = c05.iso_names(x, lv.get(x))
-        total = int(tot[x])
+        total = int(tot[x] / Fraction(2) ** e)
         cuts = sorted(rng.randint(0, total) for _ in range(len(names) - 1))
         vals = [b - a for a, b in zip([0] + cuts, cuts + [total])]
         rng.shuffle(vals)
-        out += [[n, str(v)] for n, v in zip(names, vals)]
+        out += [[n, scaled(v, e)] for n, v in zip(names, vals)]
     return out
 
 
@@ -452,17 +548,24 @@ TEMPLATES = [
     [("i", [], ["A"]), ("j", [], ["B"]), ("v1", ["A", "B"], ["C"]), ("o", ["C"], [])],
     [("i", [], ["A"]), ("v1", ["A"], ["B", "B"]), ("o", ["B"], [])],
     [("v1", ["A"], ["B"]), ("v2", ["B"], ["A"])],
+    # three and more entries on one side, coefficients mixed with other compounds, a branch point
+    [("i", [], ["A"]), ("j", [], ["B"]), ("k", [], ["C"]), ("v1", ["A", "B", "C"], ["D"]), ("o", ["D"], [])],
+    [("i", [], ["A"]), ("v1", ["A"], ["B", "C", "D"]), ("o1", ["B"], []), ("o2", ["C"], []), ("o3", ["D"], [])],
+    [("i", [], ["A"]), ("v1", ["A"], ["B", "B", "C"]), ("o1", ["B"], []), ("o2", ["C"], [])],
+    [("i", [], ["A"]), ("v1", ["A"], ["C", "B", "B", "B"]), ("o1", ["B"], []), ("o2", ["C"], [])],
+    [("i", [], ["A"]), ("j", [], ["B"]), ("v1", ["A", "B"], ["C", "D", "E"]), ("o1", ["C"], []), ("o2", ["D"], []), ("o3", ["E"], [])],
+    [("i", [], ["A"]), ("v1", ["A"], ["B"]), ("v2", ["A"], ["C"]), ("o1", ["B"], []), ("o2", ["C"], [])],
 ]
 
 
 def random_network(rng):
     """random mass-action network over labelled compounds: 0-2 distinct substrates, 0-2 products per reaction"""
-    cpds = [f"X{i}" for i in range(rng.randint(2, 4))]
+    cpds = [f"X{i}" for i in range(rng.randint(2, 5))]
     out = []
     for ri in range(rng.randint(1, 4)):
-        subs = rng.sample(cpds, rng.choice([0, 1, 1, 2]))
+        subs = rng.sample(cpds, min(len(cpds), rng.choice([0, 1, 1, 2, 3])))
         rest = [c for c in cpds if c not in subs]
-        prods = [rng.choice(rest) for _ in range(rng.choice([0, 1, 1, 2]))] if rest else []
+        prods = [rng.choice(rest) for _ in range(rng.choice([0, 1, 1, 2, 3]))] if rest else []
         if not subs and not prods:
             prods = [rng.choice(cpds)]
         out.append((f"v{ri}", subs, prods))
@@ -473,6 +576,9 @@ def random_case(rng):
     tpl = rng.choice(TEMPLATES) if rng.random() < 0.5 else random_network(rng)
     cpds = list(dict.fromkeys(c for _, s, p in tpl for c in s + p))
     labels = {c: rng.choice([1, 2, 2, 3]) for c in cpds}
+    while any(sum(labels[c] for c in sd) > 5 for _, s_, p_ in tpl for sd in (s_, p_)):
+        big = max(labels, key=lambda c: labels[c])  # keep 2^(positions per side) isotopomer reactions tractable
+        labels[big] -= 1
     bad = rng.random()
     if bad < 0.03:
         labels[rng.choice(cpds)] = 0
@@ -506,6 +612,28 @@ def random_case(rng):
         case["lv"] = case["lv"][:-1]
     ok = "ok" in spec_build(case)
     return with_evals(rng, case, n_states=2 if ok else 0, try_steady=ok)
+
+
+def large_cases(rng, tier):
+    """compounds with ten and more label positions (the isotopomer side would need 2^n variables: linear
+    model only, against the documented per-position transfers, the Lean model and uniform stationarity)"""
+    out = []
+    for n in (9, 10, 11, 12, 13) if tier != "thorough" else range(9, 17):
+        ident = list(range(n))
+        ms = [ident, ident[::-1], [n - 1] + ident[1:-1] + [0], ident[1:] + ident[:1]]
+        chain = [("i", [], ["A"]), ("v", ["A"], ["B"]), ("o", ["B"], [])]
+        for m in ms:
+            c = make_case(chain, {"A": n, "B": n}, [("i", ident), ("v", m), ("o", ident)],
+                          init=[["A", [n - 1]]] if m is ident else None)
+            c["no_iso"] = True
+            out.append(with_evals(rng, c))
+        a = n // 2
+        merge = [("i", [], ["A"]), ("j", [], ["B"]), ("v", ["A", "B"], ["C"]), ("o", ["C"], [])]
+        c = make_case(merge, {"A": a, "B": n - a, "C": n},
+                      [("i", list(range(a))), ("j", list(range(n - a))), ("v", ident[::-1]), ("o", ident)])
+        c["no_iso"] = True
+        out.append(with_evals(rng, c))
+    return out
 
 
 def reuse_cases(rng, tier):
@@ -556,7 +684,10 @@ def setup(ctx):
         "broken inputs; each at random integer isotopomer states with power-of-two pools, and, where a positive flux "
         "mode exists, at an exact base steady state (two isotopomer distributions + a uniform-enrichment state). All builds "
         "of a case run on ONE LinearLabelMapper / ONE LabelMapper object; mapper reuse stratum: the same inputs on mapper "
-        "objects that were built before with other maps / label counts / order / base model and then edited. "
+        "objects that were built before with other maps / label counts / order / base model and then edited. Round 2: sides with "
+        "3-4 entries (merges, splits, A->2B+C, branch point); fluxes 2^-40..2^20 and pools down to 2^-20 by exact dyadic scaling; one "
+        "direct evaluation per case (free pools / fluxes spread over 35 binary orders / enrichments k/8) against the documented "
+        "per-position transfers; linear-only stratum for compounds with 9-13 positions. "
         "distinct = distinct (lv, maps, init, base, evals)"
     )
     ctx.assumptions += [
@@ -589,6 +720,9 @@ def run(ctx):
         n = max(n, 6000)
         ctx.notes.append("proof/correspondence broken: widened random search for a failing input")
     run_cases(ctx, [random_case(rng) for _ in range(n)])
+    big = large_cases(rng, ctx.tier)
+    ctx.extra_cov["many_positions_stratum"] = len(big)
+    run_cases(ctx, big)
     reuse = reuse_cases(rng, ctx.tier) + [random_reuse_case(rng) for _ in range(ctx.n(800, 20000))]
     ctx.extra_cov["mapper_reuse_stratum"] = len(reuse)
     run_cases(ctx, reuse)
